@@ -128,7 +128,10 @@ FaultKinds == IF Mode = "C10" THEN {"silence", "partial"} ELSE {"close", "garbag
 \* faults in the handshake of a fresh connection
 HsFaults == (IF Mode = "C10" THEN {} ELSE {[connect |-> "refused"], [sysinfo |-> [serial |-> "DEADBEEF"]],
                                            [sysinfo |-> [serial |-> "17FD1E3D"]], [sysinfo |-> [serial |-> "27FD1E3C"]],
-                                           [sysinfo |-> [serial |-> "17FD1E3"]], [sysinfo |-> [serial |-> "7FD1E3C"]]})
+                                           [sysinfo |-> [serial |-> "17FD1E3"]], [sysinfo |-> [serial |-> "7FD1E3C"]]}
+                                          \* the terminal refuses to register / to identify itself
+                                          \cup {[sysinfo |-> [o |-> "abort", code |-> c]] : c \in {0, 108, 131, 160, 255}}
+                                          \cup {[registration |-> [o |-> "abort", code |-> c]] : c \in {0, 131}})
             \cup {[connect |-> "stall"]}
             \cup {[registration |-> [fault |-> [pos |-> p, kind |-> k]]] : p \in 0..1, k \in FaultKinds}
             \cup {[sysinfo |-> [fault |-> [pos |-> p, kind |-> k]]] : p \in 0..1, k \in FaultKinds}
